@@ -147,14 +147,18 @@ def register(generators, gm):
             raise GenError("parse: early `return None` condition not recognised")
         none_strings = [[]] + [list(gm.rust_str_bytes(x)) for x in re.findall(r'code=="([^"]*)"', em.group(2))]
         # all-or-nothing numeric split
-        sm = re.search(r"letmutparts:std::collections::VecDeque<u8>=code\.split\('(.)'\)\.map\(\|c\|c\.parse::<u8>\(\)\.ok\(\)\)\.collect::<Option<_>>\(\)\?;", sq)
+        # (the control flow around the arms -- the queue, the loop, the look-ahead -- is tied by the function translator
+        # tools/gen_fn_text.py / Proofs/LsGen.v; here it is only located, in either spelling of the queue:
+        # a VecDeque with pop_front, or a Vec consumed through into_iter() / next())
+        sm = re.search(r"letmutparts:std::collections::VecDeque<u8>=code\.split\('(.)'\)\.map\(\|c\|c\.parse::<u8>\(\)\.ok\(\)\)\.collect::<Option<_>>\(\)\?;", sq) or \
+            re.search(r"let(\w+):Vec<u8>=code\.split\('(?P<sep>.)'\)\.map\(\|c\|c\.parse::<u8>\(\)\.ok\(\)\)\.collect::<Option<_>>\(\)\?;letmutparts=\1\.into_iter\(\);", sq)
         if not sm:
             raise GenError("parse: split/parse::<u8>/collect::<Option<_>>()? not recognised")
-        sep = ord(sm.group(1))
+        sep = ord(sm.groupdict().get("sep") or sm.group(1))
         if not re.search(r"letmuteffects=anstyle::Effects::new\(\);letmutfg_color:Option<anstyle::Color>=None;"
                          r"letmutbg_color:Option<anstyle::Color>=None;letmutunderline_color:Option<anstyle::Color>=None;", sq):
             raise GenError("parse: initial values of effects / colours not recognised")
-        if not re.search(r"whileletSome\(part\)=parts\.pop_front\(\)\{matchpart\{", sq):
+        if not re.search(r"whileletSome\(part\)=parts\.(?:pop_front|next)\(\)\{matchpart\{", sq):
             raise GenError("parse: `while let Some(part) = parts.pop_front()` loop not recognised")
         if not re.search(r"Some\(anstyle::Style::new\(\)\.fg_color\(fg_color\)\.bg_color\(bg_color\)\.underline_color\(underline_color\)\.effects\(effects\),?\)\}$", sq):
             raise GenError("parse: final `Some(Style::new()...)` not recognised")
@@ -208,9 +212,9 @@ def register(generators, gm):
                 out.append((code, "LsClear %s" % targets[m.group(1)]))
                 continue
             m = re.fullmatch(
-                r"match\(parts\.pop_front\(\),parts\.pop_front\(\)\)\{"
+                r"match\(parts\.(?:pop_front|next)\(\),parts\.(?:pop_front|next)\(\)\)\{"
                 r"\(Some\(5\),Some\(color\)\)=>\{?(\w+)=Some\(anstyle::Ansi256Color\(color\)\.into\(\)\);?\}?,?"
-                r"\(Some\(2\),Some\(red\)\)=>match\(parts\.pop_front\(\),parts\.pop_front\(\)\)\{"
+                r"\(Some\(2\),Some\(red\)\)=>match\(parts\.(?:pop_front|next)\(\),parts\.(?:pop_front|next)\(\)\)\{"
                 r"\(Some\(green\),Some\(blue\)\)=>\{(\w+)=Some\(anstyle::RgbColor\(red,green,blue\)\.into\(\)\);\}"
                 r"_=>\{break;\}\},"
                 r"_=>\{break;\}\}", r)
